@@ -147,6 +147,13 @@ def gen_data(r, mode, N, F, dtype):
         for j in range(F):
             if r.random() < 0.5:
                 X[:, j] = r.randint(-9, 9)
+    elif mode == "constfrac":
+        # coefficients that never vary, at non-integer values (silence, a DC offset, a clipped log-energy floor):
+        # sums, sums of squares and the variance they imply are then dominated by rounding
+        X = np.array([[r.gauss(0, 1) for _ in range(F)] for _ in range(N)])
+        for j in range(F):
+            if r.random() < 0.7:
+                X[:, j] = r.choice([0.1, 0.3, -0.7, 1e-3, -7.3, 1 / 3.0, 123.456])
     else:  # mixed
         sc = [10 ** r.uniform(-2, 3) for _ in range(F)]
         off = [r.choice([0.0, -1.0, 1.0]) * 10 ** r.uniform(-1, 2) for _ in range(F)]
